@@ -293,6 +293,12 @@ def setup(sc, d, perturb=None):
         args = ["apply"] + FLAGS
         if perturb:
             apply_perturbation(d, perturb)
+    elif cmd == "reapply":
+        _cli_ok(["plan", SEARCH, REPLACE, "--quiet"] + FLAGS, d, "plan")
+        _cli_ok(["apply"] + FLAGS, d, "apply")
+        info["id"] = read_history(d)[1][-1]
+        _cli_ok(["undo", info["id"]] + FLAGS, d, "undo")
+        args = ["apply", info["id"]] + FLAGS
     elif cmd in ("undo", "redo"):
         _cli_ok(["rename", SEARCH, REPLACE, "-y"] + FLAGS, d, "rename")
         info["id"] = read_history(d)[1][-1]
@@ -463,7 +469,7 @@ def hist_letters(obs, which):
 def stored_flag(obs, cmd):
     """is the plan of THIS command stored (non-empty)?"""
     before, after = obs["pre"]["plans"], obs["post"]["plans"]
-    if cmd == "undo":
+    if cmd in ("undo", "reapply"):
         return None
     new = [f for f in after if f not in before]
     if cmd == "redo":
@@ -634,3 +640,70 @@ def tree_shape(pre, post, exp):
         if k in core_post and core_post[k] != v:
             cats.add("content_changed")
     return cats
+
+
+# ------------------------------------------------------------------------------------------------
+# "apply refused for a reason that is only detected late": re-applying a plan whose id is already in the history
+
+def late_trees():
+    T = trees()
+    t = {"e3r2nest": T["e3r2nest"], "e3r0": T["e3r0"], "e2r3nest": T["e2r3nest"],
+         "ronly": {"foo_bar": ("d", 0o755), "foo_bar/keep.txt": ("f", b"nothing\n", 0o644),
+                   "foo_bar_x": ("d", 0o755)}}
+    return t
+
+
+def late_jobs(thorough):
+    names = ["e3r2nest", "e3r0", "ronly"] + (["e2r3nest"] if thorough else [])
+    T = late_trees()
+    return [{"name": f"{n}/{seq}/{how}", "tree": T[n], "seq": seq, "how": how}
+            for n in names for seq in ("undo", "redo", "applied") for how in ("id", "file")]
+
+
+def run_late(job):
+    """plan; apply; [undo <id>]; [redo <id>]; then `apply <id>` | `apply <saved plan file>` under the shim.
+    Returns the observation around that LAST command plus the command sequence."""
+    d = os.path.realpath(tempfile.mkdtemp(prefix="renamify-verif."))
+    side = os.path.realpath(tempfile.mkdtemp(prefix="renamify-verif-plan."))
+    cmds = []
+    try:
+        tree = dict(job["tree"])
+        tree.update(EXTRA)
+        common.materialize(d, tree)
+
+        def step(args):
+            cmds.append("renamify " + " ".join(a if not a.startswith(side) else "<saved plan file>" for a in args))
+            rc, out, err = common.cli(args, d)
+            return rc, err.decode("utf-8", "replace")
+        rc, err = step(["plan", SEARCH, REPLACE, "--quiet"] + FLAGS)
+        if rc != 0:
+            return {"job": job["name"], "setup_error": "plan: " + err[-200:]}
+        pj = os.path.join(d, ".renamify", "plan.json")
+        plan = relplan(json.load(open(pj)), d)
+        pre0 = observe(d)
+        saved = os.path.join(side, "saved-plan.json")
+        shutil.copy(pj, saved)
+        rc, err = step(["apply"] + FLAGS)
+        if rc != 0:
+            return {"job": job["name"], "setup_error": "apply: " + err[-200:]}
+        pid = read_history(d)[1][-1]
+        if job["seq"] in ("undo", "redo"):
+            rc, err = step(["undo", pid] + FLAGS)
+            if rc != 0:
+                return {"job": job["name"], "setup_error": "undo: " + err[-200:]}
+        if job["seq"] == "redo":
+            rc, err = step(["redo", pid] + FLAGS)
+            if rc != 0:
+                return {"job": job["name"], "setup_error": "redo: " + err[-200:]}
+        pre = observe(d)
+        last = ["apply", pid if job["how"] == "id" else saved] + FLAGS
+        cmds.append("renamify " + " ".join(a if not a.startswith(side) else "<saved plan file>" for a in last)
+                    .replace(pid, "<id of the plan>"))
+        r = shim.trace(last, d)
+        post = observe(d)
+        return {"job": job["name"], "rc": r.rc, "stderr": r.stderr.decode("utf-8", "replace")[-300:], "pre": pre, "post": post,
+                "pre0": pre0, "plan": plan, "groups": fine(r.events, None), "old_id": None, "id": pid,
+                "commands": [c.replace(pid, "<id of the plan>") for c in cmds]}
+    finally:
+        shutil.rmtree(d, ignore_errors=True)
+        shutil.rmtree(side, ignore_errors=True)
